@@ -169,10 +169,86 @@ def check_validate(ctx, idx, rule="C05.c"):
     return fi
 
 
+def _rebuilt_before_validation(idx, rule, ctx):
+    """Read on the control-flow graph, before the array analyser is consulted: the list handed to validate_array_shapes is the
+    list of ALL input arrays as first built (`[c.result for c in kwargs[...]]`), not a list some helper or filter rebuilt on the
+    way (layers dropped there - a zero weight, an empty layer - escape the same-shape check).  Returns the keys it reported."""
+    reported = set()
+    for d in K.table(idx):
+        fi = d.execute
+        if fi is None or fi.cls.name == "Command" or not (d.is_data() or d.cls.name == "EEMSWrite"):
+            continue
+        lists = [nm for nm, (k, _) in d.ref_inputs().items() if k == "cmdlist"]
+        if not lists:
+            continue
+        cfg = K.cfg_of(idx, fi)
+        sn = K.self_name(fi)
+        calls = cfg.find("call", lambda c: K.is_self_call(c.ast, "validate_array_shapes", sn))
+        if not calls:
+            continue
+        rd = cfg.reaching_defs()
+        kwn = fi.node.args.kwarg.arg if fi.node.args.kwarg else None
+
+        def provenance(e, at, depth=0):
+            """True: the list of all inputs as first built; (False, culprit): filtered / rebuilt on the way; None: not followed"""
+            if depth > 6 or e is None:
+                return None
+            if isinstance(e, ast.Subscript) and isinstance(e.value, ast.Name) and e.value.id == kwn and isinstance(e.slice, ast.Constant) and e.slice.value in lists:
+                return True
+            if isinstance(e, (ast.ListComp, ast.GeneratorExp)) and len(e.generators) == 1:
+                g = e.generators[0]
+                if g.ifs:
+                    return (False, e)
+                return provenance(g.iter, at, depth + 1)
+            if isinstance(e, ast.Call) and isinstance(e.func, ast.Name) and e.func.id in ("list", "tuple", "zip", "enumerate", "reversed") and e.args:
+                return provenance(e.args[0], at, depth + 1)
+            if isinstance(e, ast.Name):
+                defs = [dn for dn in rd.get(at, {}).get(e.id, frozenset())]
+                if not defs or any(dn == "param" or dn.kind != "store" for dn in defs):
+                    return None
+                out = True
+                for dn in defs:
+                    v = dn.meta.get("value")
+                    stmt = dn.ast
+                    if v is None and not isinstance(stmt, ast.Assign):
+                        # a target inside a tuple-unpacking assignment: find the statement it belongs to
+                        stmt = next((a_ for a_ in own_nodes(fi.node) if isinstance(a_, ast.Assign) and any(dn.ast is y_ for t_ in a_.targets for y_ in ast.walk(t_))), None)
+                    if v is None and isinstance(stmt, ast.Assign) and isinstance(stmt.value, ast.Tuple) and len(stmt.targets) == 1 and isinstance(stmt.targets[0], ast.Tuple) \
+                            and len(stmt.targets[0].elts) == len(stmt.value.elts):
+                        pos = [i for i, t in enumerate(stmt.targets[0].elts) if isinstance(t, ast.Name) and t.id == e.id]
+                        v = stmt.value.elts[pos[0]] if pos else None
+                    if v is None and isinstance(stmt, ast.Assign) and isinstance(stmt.value, ast.Call):
+                        return (False, stmt.value)  # rebuilt by a call the list was handed to
+                    pr = provenance(v, dn, depth + 1)
+                    if pr is None:
+                        return None
+                    if pr is not True:
+                        return pr
+                return out
+            if isinstance(e, ast.Call):
+                return (False, e) if any(isinstance(a, ast.Name) for a in e.args) else None
+            return None
+
+        for c in calls:
+            a0 = c.ast.args[0] if c.ast.args else None
+            if not isinstance(a0, ast.Name):
+                continue
+            pr = provenance(a0, c)
+            if isinstance(pr, tuple):
+                con = "%s.execute::shapes-validated" % d.key
+                ctx.violate(rule, con, d.module.rel, c.line, "validate_array_shapes is given `%s` after the list of inputs was filtered / rebuilt by `%s`: inputs dropped there never have their shape compared, so layers of different shapes are accepted and the result takes the shape of only some of them" % (a0.id, K.src(pr[1])[:70]))
+                reported.add(d.key)
+    return reported
+
+
 def check_validate_callers(ctx, idx, rule):
     """every command with a list-of-results input calls validate_array_shapes on the whole list before arithmetic"""
     n = 0
+    early = _rebuilt_before_validation(idx, rule, ctx)
     for key, (d, r) in sorted(R.results(idx).items()):
+        if key in early:
+            n += 1
+            continue
         lists = [nm for nm, (k, _) in d.ref_inputs().items() if k == "cmdlist"]
         pair = [nm for nm, (k, _) in d.ref_inputs().items() if k == "cmd"]
         if not d.is_data() and d.cls.name != "EEMSWrite":
@@ -214,6 +290,9 @@ def run(ctx, idx):
     ctx.rule("C05.a", "Every normal return of a data command has abstract shape Same for inputs of any rank; stacked values are consumed only by layer-axis operations.")
     ctx.rule("C05.b", "Data-shaped values are touched only by pointwise, symmetric-scalar or layer-axis operations; positional indexing, reshapes, transposes, sorts and reductions along data axes are violations.")
     ctx.rule("C05.c", "validate_array_shapes raises when any two shapes differ (and EmptyInputs on an empty list); every n-ary command calls it on the whole list before the first array operation.")
+    # the shape precondition is read off the callers' control flow: decided before the array analyser is consulted
+    check_validate(ctx, idx, "C05.c")
+    check_validate_callers(ctx, idx, "C05.c")
     n_ret = 0
     for d, r in R.data_commands(idx):
         for n, s, v in R.ret_sites(d, r):
@@ -241,5 +320,3 @@ def run(ctx, idx):
         if not any(f[0] == "equivariance" for f in r.findings):
             ctx.hold("C05.b", "%s.execute::equivariant" % d.key, d.module.rel, d.execute.node.lineno, "only pointwise / symmetric-scalar / layer-axis operations")
     ctx.floor("C05.a", "return sites of data commands", n_ret, 30)
-    check_validate(ctx, idx, "C05.c")
-    check_validate_callers(ctx, idx, "C05.c")
